@@ -1940,7 +1940,7 @@ func (b *recBatch) maybeFailErr(cfg *cfg) error {
 	return nil
 }
 
-func (b *recBatch) v0wireLength() int32 { return b.v1wireLength - 8 } // no timestamp
+func (b *recBatch) v0wireLength() int32 { return b.v1wireLength - 8*int32(len(b.records)) } // no timestamp in any message
 func (b *recBatch) batchLength() int32  { return b.wireLength - 4 }   // no length prefix
 func (b *recBatch) flexibleWireLength() int32 { // uvarint length prefix
 	batchLength := b.batchLength()
@@ -2430,7 +2430,16 @@ func (b *recBatch) tryBuffer(pr promisedRec, produceVersion, maxBatchBytes int32
 	nums := b.calculateRecordNumbers(pr.Record)
 
 	batchWireLength, _, _ := b.wireLengthForProduceVersion(produceVersion)
-	newBatchLength := batchWireLength + nums.wireLength()
+	recWireLength := nums.wireLength()
+	switch { // message sets (produce v0-v2) frame every record as a message
+	case produceVersion < 0:
+		recWireLength = max(recWireLength, messageSet1Length(pr.Record))
+	case produceVersion <= 1:
+		recWireLength = messageSet1Length(pr.Record) - 8 // no timestamp
+	case produceVersion == 2:
+		recWireLength = messageSet1Length(pr.Record)
+	}
+	newBatchLength := batchWireLength + recWireLength
 
 	if b.frozen || newBatchLength > maxBatchBytes {
 		return false, false
